@@ -57,6 +57,10 @@ claim("C13", "finite-domain abstract interpretation of both precedence computati
       "Decides C13.1 (both precedence functions are strictly increasing destination-first, source-second over their whole domain and agree), C13.2 (the sorter compares precedence descending and one field per tie-break), C13.3 (7 list-assembling functions: sorted here or by every caller), C13.4 (first match decides), C13.5 (precedence recomputed unconditionally on normalisation and on legacy writes). Wildcard expansion of IntentionMatch for all pairs is not decided.",
       "DESIGN.md section 3 C13")
 
+claim("C20", "registry agreement of archive member names between writer, reader and hash list; value-flow of each registered hash into the copy of its member; edge-cut dominance of every success return by the checksum verification; failure-only paths below mismatch / unlisted-name edges; who-may-call on raft.Restore",
+      "Decides C20.1 (writer/reader/hash-list agree on the three members; an unexpected member is an error and never skipped), C20.2 (each hash is fed on write and read; a repeated name continues the same hash), C20.3 (read succeeds only below a successful DecodeAndVerify, which rejects mismatch, unlisted name and missing checksum), C20.4 (Read/Verify succeed only below read and gzip conclusion; raft.Restore only in snapshot.Restore below a successful Read). Byte-exact round trip and detection at every corruption offset (tar/gzip framing) are not decided.",
+      "DESIGN.md section 3 C20")
+
 NA_REASON = {}
 
 checks = []
